@@ -172,7 +172,7 @@ theorem cleanup_faults_irrelevant (c c' : Cfg) (r : Result) (h : runForever c = 
   have hb' : c'.cause.before = false := by rw [hc]; exact hb
   have hfin : ∃ r', finish c' (plan c') = some r' := by
     unfold finish
-    simp only []
+    simp only [consumePending, Bool.false_and, Bool.false_eq_true, if_false]
     have : (permOf c'.oa (setA c'.blocks (plan c').started) && permOf c'.os (setS c'.blocks (plan c').started)) = true := by
       simp only [permOf, Bool.and_eq_true, List.isPerm_iff, hA, hS, hoa, hos]
       exact ⟨sp.permA, sp.permS⟩
@@ -298,6 +298,37 @@ theorem no_live_timer_at_end (c : Cfg) (r : Result) (h : runForever c = some r) 
       · exact hnos (hsync x h1 h2)
     · exact hnos (hsync x h2 h3)
 
+/-- the partition of `_stop_sblocks` mirrors `has stop_async ∧ stop_timeout > 0`: a started block
+    that derives from AddonAsync but has no stop_async (kind `ainit`: init_async only) or whose
+    asynchronous clean-up is disabled (stop_timeout 0) is stopped with the synchronous set –
+    stop() is called, stop_async is not -/
+theorem async_capable_without_cleanup_is_stopped (c : Cfg) (r : Result) (h : runForever c = some r)
+    (hb : c.cause.before = false) (k : Nat) (hk : k ∈ r.started)
+    (hkind : (blk c.blocks k).kind = .ainit ∨ (blk c.blocks k).stopTimeout = 0) :
+    k ∈ stops r.trace ∧ k ∉ sabs r.trace ∧ k ∉ saes r.trace := by
+  have sp := run_spec c r h hb
+  obtain ⟨h1, _, h3, h4⟩ := trace_stops c r h hb
+  rw [sp.started] at hk
+  have hna : (blk c.blocks k).asyncStop = false := by
+    rcases hkind with hk' | hk'
+    · simp [Blk.asyncStop, hk']
+    · simp [Blk.asyncStop, hk']
+  have hos : k ∈ c.os := by
+    refine (sp.permS.mem_iff).2 ?_
+    simp [setS, hk, hna]
+  have hoa : k ∉ c.oa := by
+    intro hmem
+    have := (sp.permA.mem_iff).1 hmem
+    simp [setA, hna] at this
+  refine ⟨by rw [h1]; simp [hos], by rw [h3]; exact hoa, ?_⟩
+  intro hmem
+  exact hoa ((h4.mem_iff).1 hmem)
+
+/-- the rule of run_forever that keeps a pending cancellation away from the clean-up: whatever
+    the plan says, the clean-up starts without one (and therefore runs to its end – all theorems
+    above hold for the inner causes followed by an exception as well) -/
+theorem pending_cancel_consumed (p : Plan) : (consumePending p).pendingCancel = false := rfl
+
 /-- non-vacuity: three blocks (async probe, timer in a timed state, OutputFunc with stop_data
     whose on_success starts the timer), handler error while running, the OutputFunc stopped
     AFTER the timer: all three stopped once, stop_data delivered, nothing left -/
@@ -309,6 +340,23 @@ example : ∃ r, runForever
     stops r.trace = [0, 1, 2] ∧ outsOf 2 r.trace = [false, true] ∧ r.tasks = [] ∧ r.timers = [] ∧
     r.endTime = 215 := by
   refine ⟨_, rfl, ?_⟩
+  decide +kernel
+
+/-- example configuration: async probe, CBlock, init_async-only block, AddonAsync block with
+    stop_timeout 0; 'shutdown' control event from inside the simulator task followed by an exception -/
+abbrev exInner : Cfg :=
+  { blocks := [{ kind := .async, stopDur := 10, stopTimeout := 100 }, { kind := .cblock },
+               { kind := .ainit, hasInitAsync := true, initDur := 5, initTimeout := 50 },
+               { kind := .aplain, stopTimeout := 0 }],
+    cause := { kind := .innerShutdown, time := 805, raiseAfter := true },
+    oa := [0], os := [3, 1, 2] }
+
+/-- non-vacuity of the inner cause: a cancellation IS pending at the end of the try block, in a
+    circuit with an asynchronous clean-up: everything is stopped, nothing is left -/
+example : (plan exInner).pendingCancel = true ∧
+    ∃ r, runForever exInner = some r ∧
+      stops r.trace = [0, 3, 1, 2] ∧ sabs r.trace = [0] ∧ r.tasks = [] ∧ r.error = some .cancelled := by
+  refine ⟨by decide +kernel, _, rfl, ?_⟩
   decide +kernel
 
 end Edzed.Lifecycle
